@@ -35,6 +35,8 @@ FINDINGS = {
     "C06-arekeysexist-missing-swamp-error": "AreKeysExist on a missing swamp answers FailedPrecondition (documented: every key false)",
     "C06-count-missing-swamp-error": "Count on a missing swamp answers FailedPrecondition (compared with NotFound) instead of IsExist=false",
     "C06-set-error-entry-duplicated": "a swamp rejected by Set gets two response entries (the error entry and an empty one)",
+    "C06-unstorable-key-acknowledged": ("Set / Increment / Uint32SlicePush acknowledge a record under the empty key or a key of 65536 bytes and more "
+                                        "(documented since the gateway key validation: InvalidArgument for the whole request, nothing created)"),
     "C06-nan-condition-passes": ("IncrementFloat32/64 evaluate an ordering condition through its complement (`if cur <= ref { fail }` for "
                                  "'greater than'): with a NaN on either side no complement holds, so >, >=, <, <= all count as satisfied "
                                  "and the increment is applied (== and != behave as stated)"),
